@@ -31,6 +31,7 @@ type c03Layer struct {
 type c03Part struct {
 	Frac int `json:"frac"` // relative weight of the part's size
 	Done int `json:"done"` // 0 nothing, 1 half, 2 all of the part already downloaded
+	Torn int `json:"torn,omitempty"` // the part's bookkeeping file as a kill leaves it while it is being (re)written: 1 empty (created / truncated, nothing written yet), 2 cut inside its JSON
 }
 
 type c03Attempt struct {
@@ -125,7 +126,7 @@ func c03Gen(t *rapid.T) c03Case {
 	if c.Prior == 2 {
 		c.PartLayer = rapid.IntRange(0, 3).Draw(t, "part_layer")
 		c.Parts = rapid.SliceOfN(rapid.Custom(func(t *rapid.T) c03Part {
-			return c03Part{Frac: rapid.IntRange(1, 4).Draw(t, "frac"), Done: rapid.IntRange(0, 2).Draw(t, "done")}
+			return c03Part{Frac: rapid.IntRange(1, 4).Draw(t, "frac"), Done: rapid.IntRange(0, 2).Draw(t, "done"), Torn: rapid.SampledFrom([]int{0, 0, 0, 0, 0, 0, 1, 2}).Draw(t, "torn")}
 		}), 1, 4).Draw(t, "parts")
 	}
 	nf := rapid.SampledFrom([]int{0, 1, 1, 2, 2, 3, 4}).Draw(t, "n_faults")
@@ -335,7 +336,16 @@ func c03Run(t *testing.T, c c03Case, rec *vfkit.Recorder) (info c03Info, err err
 					done := []int{0, size / 2, size}[p.Done%3]
 					copy(buf[off:off+done], l.Data[off:off+done])
 					js, _ := json.Marshal(map[string]any{"N": i, "Offset": off, "Size": size, "Completed": done})
-					os.WriteFile(fmt.Sprintf("%s-partial-%d", fp, i), append(js, '\n'), 0o644)
+					js = append(js, '\n')
+					switch p.Torn {
+					case 1:
+						js = nil
+						cls["prior_part_file_torn"] = true
+					case 2:
+						js = js[:len(js)/2]
+						cls["prior_part_file_torn"] = true
+					}
+					os.WriteFile(fmt.Sprintf("%s-partial-%d", fp, i), js, 0o644)
 					off += size
 				}
 				os.WriteFile(fp+"-partial", buf, 0o644)
